@@ -387,10 +387,26 @@ def strings(rep):
     rep.ob("O16.3", "R3d", pr, ok, "left = fmt(e.reactants); right = fmt(e.products)", "reactants are printed left of the arrow, products right")
     # parser structure
     regs = {}
-    for c in [n for n in walk_local(ps.node) if isinstance(n, ast.Call) and dotted(n.func) in ("re.match", "re.fullmatch", "re.search")]:
-        regs["term"] = c.args[0].value
-    for c in [n for n in walk_local(ad.node) if isinstance(n, ast.Call) and dotted(n.func) in ("re.match", "re.search")]:
-        regs["rule"] = c.args[0].value
+
+    def _regex_calls(fi_):
+        """[(call, pattern text, method)] for re.match(<literal>, ..) and <MODULE_CONST>.match(..) with MODULE_CONST = re.compile(<literal>)"""
+        out = []
+        compiled = {}
+        for st in fi_.module.tree.body:
+            if isinstance(st, ast.Assign) and len(st.targets) == 1 and isinstance(st.targets[0], ast.Name) and isinstance(st.value, ast.Call) \
+                    and dotted(st.value.func) == "re.compile" and st.value.args and isinstance(st.value.args[0], ast.Constant):
+                compiled[st.targets[0].id] = st.value.args[0].value
+        for n in walk_local(fi_.node):
+            if isinstance(n, ast.Call) and dotted(n.func) in ("re.match", "re.fullmatch", "re.search") and n.args and isinstance(n.args[0], ast.Constant):
+                out.append((n, n.args[0].value, dotted(n.func).split(".")[1]))
+            elif isinstance(n, ast.Call) and isinstance(n.func, ast.Attribute) and n.func.attr in ("match", "fullmatch", "search") \
+                    and isinstance(n.func.value, ast.Name) and n.func.value.id in compiled:
+                out.append((n, compiled[n.func.value.id], n.func.attr))
+        return out
+    for c, pat, meth in _regex_calls(ps):
+        regs["term"] = pat
+    for c, pat, meth in _regex_calls(ad):
+        regs["rule"] = pat
     rep.extra["parser_regexes"] = regs
     if "term" not in regs or "rule" not in regs:
         raise AnalysisError("parser regexes not found")
@@ -401,7 +417,8 @@ def strings(rep):
     try:
         rx = re.compile(regs["term"])
         for c_ in (2, 3, 10, 12, 123):
-            for s_ in ("A", "B", "Fe", "Cl2", "x1", "Ab3c"):
+            # species labels are free text that starts with a letter: plain names, formulas, and structure strings
+            for s_ in ("A", "B", "Fe", "Cl2", "x1", "Ab3c", "C=C", "A'", "A-1", "CC(C)O", "c1ccccc1", "H2O.aq"):
                 m_ = rx.match(f"{c_}{s_}")
                 if not m_ or m_.groups() != (str(c_), s_):
                     bad.append(f"{c_}{s_} -> {m_.groups() if m_ else None}")
@@ -414,7 +431,8 @@ def strings(rep):
     rep.ob("O16.3", "R3d", ps, ok, regs["term"], "glued terms printed as `<coefficient><species>` are split back into exactly (coefficient, species), "
            "also for multi-digit coefficients; bare species do not match", {"shape": [str(x) for x in shape], "disagreements": bad[:5]})
     gdefs = local_defs(ps.node)
-    mvar = [nm for nm, ds in gdefs.items() for d_ in ds if d_.kind == "assign" and isinstance(d_.value, ast.Call) and dotted(d_.value.func) in ("re.match", "re.fullmatch", "re.search")]
+    rx_calls = [c for c, _p, _m in _regex_calls(ps)]
+    mvar = [nm for nm, ds in gdefs.items() for d_ in ds if d_.kind == "assign" and any(d_.value is c for c in rx_calls)]
     okg = False
     if mvar:
         mv = mvar[0]
